@@ -31,7 +31,7 @@ def mvb(ident, E=(), S=(), P=(), N=(), H=()):
 FULL_ALPHA = [
     bytes([2, 0]), bytes([2, 1]), bytes([3, 0]), bytes([3, 1]), bytes([4, 0]),
     bytes([137, 0]), bytes([137, 1]),
-    mvb(0, E=(0,)), mvb(0, S=(0,)), mvb(0, P=(0,)), mvb(0, N=(0,)),
+    mvb(0, E=(0,)), mvb(0, S=(0,)), mvb(0, P=(0,)), mvb(0, N=(0,)), mvb(1, E=(1, 0)),
     bytes([5]), bytes([6]), bytes([8, 0]), bytes([8, 1]), bytes([7, 0]),
     bytes([10, 0]), bytes([11, 0]),
     bytes([12]), bytes([13]), bytes([14]), bytes([15]), bytes([19]),
